@@ -29,11 +29,21 @@ type Node struct {
 }
 
 type Case struct {
-	Kind     string `json:"kind"` // eq ne rand
+	Kind     string `json:"kind"` // eq ne rand dag
 	A        *Node  `json:"a"`
 	B        *Node  `json:"b"`
 	ObsFirst bool   `json:"obsFirst,omitempty"` // observe length/charCodeAt before the pair comparisons
+	// DAG cases: T is evaluated ONCE and bound to a variable; A, B and the Extra trees refer to it through nodes
+	// {"k":"var"}; the program is  t = T; a = A; extras...; b = B  and everything is observed afterwards.
+	// Pick selects the observed pair: "ab" (default), "at" (a and t), "tb" (t and b).  The model evaluates the same
+	// DAG with value semantics (the Gallina term has T substituted for the variable).
+	T     *Node   `json:"t,omitempty"`
+	Extra []*Node `json:"extra,omitempty"`
+	Pick  string  `json:"pick,omitempty"`
 }
+
+// curT is the shared subterm of the DAG case being rendered (nil for plain tree cases)
+var curT *Node
 
 // ------------------------------------------------------------------------------------------------
 // alphabet
@@ -54,7 +64,8 @@ func isWS(c int) bool {
 }
 
 type gen struct {
-	r *vh.Rng
+	r         *vh.Rng
+	noInvalid bool // Go leaves carry well-formed UTF-8 only (DAG cases: sharing changes WHEN a value is scanned)
 }
 
 func appendCP(u []int, cp int) []int {
@@ -218,7 +229,7 @@ func (g *gen) goBytes(u []int, allowInvalid bool) []int {
 	var b []byte
 	bad := [][]byte{{0xFF}, {0xFE}, {0xC0}, {0xC1}, {0xF8}, {0x80}, {0xBF}, {0xC3}, {0xE2}, {0xF0}, {0xED}}
 	for _, r := range runes {
-		if r == 0xFFFD && allowInvalid && g.r.Chance(70) {
+		if r == 0xFFFD && allowInvalid && !g.noInvalid && g.r.Chance(70) {
 			b = append(b, bad[g.r.Intn(len(bad))]...)
 		} else {
 			b = utf8.AppendRune(b, r)
@@ -568,9 +579,84 @@ func (g *gen) mutate(u []int) []int {
 	return v
 }
 
+// genDag: one shared intermediate value used by two (or many) later operations
+func genDag(g *gen) Case {
+	g.noInvalid = true
+	defer func() { g.noInvalid = false }()
+	v := &Node{K: "var"}
+	c := Case{Kind: "dag", ObsFirst: g.r.Chance(30), Pick: []string{"ab", "ab", "ab", "at", "tb"}[g.r.Intn(5)]}
+	ut := g.unitsOf(g.r.Pick(2, 5, 3, 4, 0), 1+g.r.Intn(12))
+	c.T = g.derive(ut, 1+g.r.Intn(3))
+	// a use of t whose value is ut ++ x by construction
+	suffixUse := func(x []int) *Node {
+		d := g.r.Intn(2)
+		i := g.r.Intn(len(x) + 1)
+		switch g.r.Pick(5, 2, 2, 2) {
+		case 0:
+			return &Node{K: "cat", A: v, B: g.derive(x, d)}
+		case 1:
+			return &Node{K: "tmpl", A: v, M: x[:i], B: g.derive(x[i:], d)}
+		case 2:
+			if len(x) > 0 {
+				return &Node{K: "padEnd", A: v, I: len(ut) + len(x), B: g.derive(x, d)}
+			}
+			return &Node{K: "cat", A: v, B: g.derive(x, d)}
+		default:
+			return &Node{K: "cat", A: &Node{K: "cat", A: v, B: g.derive(x[:i], d)}, B: g.derive(x[i:], d)}
+		}
+	}
+	randUse := func() *Node {
+		ri := func() int { return g.r.Intn(20) - 6 }
+		switch g.r.Pick(3, 2, 2, 2, 2, 1, 1) {
+		case 0:
+			return &Node{K: "cat", A: g.leaf(g.smallUnits(4)), B: v}
+		case 1:
+			return &Node{K: "slice", A: v, I: ri(), J: ri()}
+		case 2:
+			return &Node{K: "substring", A: v, I: ri(), J: ri()}
+		case 3:
+			return &Node{K: "repeat", A: v, I: g.r.Intn(4)}
+		case 4:
+			return &Node{K: "padStart", A: v, I: g.r.Intn(24), B: g.leaf(g.smallUnits(3))}
+		case 5:
+			return &Node{K: "cat", A: v, B: v}
+		default:
+			return &Node{K: "trimEnd", A: &Node{K: "cat", A: v, B: &Node{K: "lit", U: []int{32, 160}}}}
+		}
+	}
+	if g.r.Chance(70) {
+		x := g.smallUnits(5)
+		y := x
+		if !g.r.Chance(25) {
+			y = g.mutate(x)
+			if g.r.Bool() {
+				y = g.smallUnits(5)
+			}
+		}
+		c.A = suffixUse(x)
+		c.B = suffixUse(y)
+	} else {
+		c.A = randUse()
+		c.B = randUse()
+		if g.r.Bool() {
+			c.B = suffixUse(g.smallUnits(4))
+		}
+	}
+	// a loop building keys from the shared prefix: t+"0", t+"1", ... between a and b
+	if g.r.Chance(40) {
+		for k, n := 0, 1+g.r.Intn(6); k < n; k++ {
+			c.Extra = append(c.Extra, &Node{K: "cat", A: v, B: &Node{K: "lit", U: []int{'0' + k}}})
+		}
+	}
+	return c
+}
+
 func genCase(g *gen, tier string) Case {
 	depth := 1 + g.r.Intn(4)
 	c := Case{ObsFirst: g.r.Chance(30)}
+	if g.r.Chance(15) {
+		return genDag(g)
+	}
 	switch g.r.Pick(50, 25, 25) {
 	case 0:
 		u := g.randUnits()
@@ -660,6 +746,8 @@ func ints(u []int) string {
 func (rd *renderer) js(n *Node) string {
 	rd.tags["op:"+n.K] = true
 	switch n.K {
+	case "var":
+		return "t"
 	case "lit":
 		return jsLit(n.U, n.Raw, '"')
 	case "go":
@@ -742,6 +830,8 @@ func coqZ(i int) string {
 
 func coqExpr(n *Node) string {
 	switch n.K {
+	case "var":
+		return coqExpr(curT)
 	case "lit":
 		return "(ELit " + coqNs(n.U) + ")"
 	case "go":
@@ -797,6 +887,8 @@ func valid(n *Node) bool {
 		return false
 	}
 	switch n.K {
+	case "var":
+		return curT != nil
 	case "lit", "go", "imp", "u16", "fcc", "fcp":
 		for _, c := range n.U {
 			lim := 0xFFFF
@@ -823,7 +915,7 @@ func valid(n *Node) bool {
 // ------------------------------------------------------------------------------------------------
 // running one case
 
-const failTerm = "(mkCase (ELit nil) (ELit nil) (mkS nil nil true) (mkS nil nil true) (mkP true true true true false false true true true true) false)%N"
+const failTerm = "(mkCase (ELit nil) (ELit nil) (mkS nil nil true) (mkS nil nil true) (mkP true true true true false false true true true true true true true true) false)%N"
 
 type single struct {
 	units  []int
@@ -848,41 +940,125 @@ func runCase(c Case) vh.Record {
 	fail := func(why string) vh.Record {
 		return vh.Record{Case: raw, Coq: failTerm, Obs: "FAIL: " + why, Tags: []string{"fail"}}
 	}
-	if !valid(c.A) || !valid(c.B) {
+	curT = c.T
+	defer func() { curT = nil }()
+	if !valid(c.A) || !valid(c.B) || (c.T != nil && !valid(c.T)) {
 		return fail("malformed case")
+	}
+	for _, e := range c.Extra {
+		if c.T == nil || !valid(e) {
+			return fail("malformed case")
+		}
+	}
+	// the two observed expressions
+	exA, exB := c.A, c.B
+	if c.T != nil {
+		switch c.Pick {
+		case "at":
+			exB = &Node{K: "var"}
+		case "tb":
+			exA = &Node{K: "var"}
+		}
 	}
 	rt := goja.New()
 	rd := &renderer{rt: rt, tags: map[string]bool{}}
+	// LIT does the dictionary lookups FIRST (on a fresh value nothing has scanned an imported string yet)
 	if _, err := rt.RunString(`function U(v){return v===undefined?"":v}
 function UNITS(s){var r=[];for(var i=0;i<s.length;i++)r.push(s.charCodeAt(i));return r}
 function PAIR(a,b){return [a===b,b===a,a==b,Object.is(a,b),a<b,a>b,new Map([[a,1]]).get(b)===1,new Map([[b,1]]).get(a)===1,({[a]:1})[b]===1]}
-function LIT(a,l){return a===l&&l===a&&new Map([[a,1]]).get(l)===1&&new Map([[l,1]]).get(a)===1&&({[a]:1})[l]===1&&({[l]:1})[a]===1&&new Set([a,l]).size===1}`); err != nil {
+function LIT(a,l){return new Map([[a,1]]).get(l)===1&&new Map([[l,1]]).get(a)===1&&new Set([a,l]).size===1&&new Set([l,a]).size===1&&({[a]:1})[l]===1&&({[l]:1})[a]===1&&a===l&&l===a}
+function SELF(k){var s=new Set();s.add(k);var m=new Map([[k,1]]);var n=k.length;return s.has(k)&&m.get(k)===1&&s.size===1&&(s.add(k),s.size===1)}`); err != nil {
 		panic(err)
 	}
-	srcA := rd.js(c.A)
-	srcB := rd.js(c.B)
-	va, err := rt.RunString("(" + srcA + ")")
-	if err != nil {
-		return fail("a: " + errClass(err))
+	var srcA, srcB string
+	// eval evaluates the whole case again with FRESH leaf values and returns the observed pair
+	eval := func() (goja.Value, goja.Value, string) {
+		var va, vb goja.Value
+		if c.T == nil {
+			srcA, srcB = rd.js(c.A), rd.js(c.B)
+			var err error
+			if va, err = rt.RunString("(" + srcA + ")"); err != nil {
+				return nil, nil, "a: " + errClass(err)
+			}
+			if vb, err = rt.RunString("(" + srcB + ")"); err != nil {
+				return nil, nil, "b: " + errClass(err)
+			}
+		} else {
+			var sb strings.Builder
+			sb.WriteString("(function(){var t=(" + rd.js(c.T) + ");var a=(" + rd.js(c.A) + ");var x=[];")
+			for _, e := range c.Extra {
+				sb.WriteString("x.push(" + rd.js(e) + ");")
+			}
+			sb.WriteString("var b=(" + rd.js(c.B) + ");return [a,b,t,x];})()")
+			srcA, srcB = sb.String(), "pick="+c.Pick
+			rd.tags["dag:"+c.Pick] = true
+			res, err := rt.RunString(srcA)
+			if err != nil {
+				return nil, nil, "dag: " + errClass(err)
+			}
+			o := res.ToObject(rt)
+			a, b, t := o.Get("0"), o.Get("1"), o.Get("2")
+			switch c.Pick {
+			case "at":
+				va, vb = a, t
+			case "tb":
+				va, vb = t, b
+			default:
+				va, vb = a, b
+			}
+		}
+		if _, ok := va.(goja.String); !ok {
+			return nil, nil, "a is not a string"
+		}
+		if _, ok := vb.(goja.String); !ok {
+			return nil, nil, "b is not a string"
+		}
+		return va, vb, ""
 	}
-	vb, err := rt.RunString("(" + srcB + ")")
-	if err != nil {
-		return fail("b: " + errClass(err))
+	jsBool := func(src string) (bool, string) {
+		v, err := rt.RunString(src)
+		if err != nil {
+			return false, src + ": " + errClass(err)
+		}
+		return v.ToBoolean(), ""
 	}
-	if _, ok := va.(goja.String); !ok {
-		return fail("a is not a string")
+
+	// ---- 1. dictionary observations, each FIRST on a freshly evaluated pair
+	var fresh []bool
+	var ra, rb string
+	for k, src := range []string{"new Map([[a,1]]).get(b)===1", "new Map([[b,1]]).get(a)===1", "new Set([a,b]).size===1", ""} {
+		va, vb, why := eval()
+		if why != "" {
+			return fail(why)
+		}
+		if k == 0 {
+			ra, rb = goja.VerifRepr(va), goja.VerifRepr(vb)
+		}
+		if src == "" {
+			fresh = append(fresh, goja.VerifHashEq(va, vb))
+			continue
+		}
+		rt.Set("a", va)
+		rt.Set("b", vb)
+		ok, why := jsBool(src)
+		if why != "" {
+			return fail(why)
+		}
+		fresh = append(fresh, ok)
 	}
-	if _, ok := vb.(goja.String); !ok {
-		return fail("b is not a string")
-	}
-	ra, rb := goja.VerifRepr(va), goja.VerifRepr(vb)
 	rd.tags["pair:"+reprClass(ra)+"x"+reprClass(rb)] = true
 	rd.tags["repr:"+ra] = true
 	rd.tags["repr:"+rb] = true
+
+	// ---- 2. the main copy
+	va, vb, why := eval()
+	if why != "" {
+		return fail(why)
+	}
 	rt.Set("a", va)
 	rt.Set("b", vb)
 
-	observe := func(name string, v goja.Value) (single, string) {
+	observe := func(name string, v goja.Value, second bool) (single, string) {
 		var s single
 		uv, err := rt.RunString("UNITS(" + name + ")")
 		if err != nil {
@@ -900,11 +1076,36 @@ function LIT(a,l){return a===l&&l===a&&new Map([[a,1]]).get(l)===1&&new Map([[l,
 		if err != nil {
 			return s, "lit: " + errClass(err)
 		}
-		lo, err := rt.RunString("LIT(" + name + ",l)")
-		if err != nil {
-			return s, "litcmp: " + errClass(err)
+		// after the scan
+		lo, why := jsBool("LIT(" + name + ",l)")
+		if why != "" {
+			return s, why
 		}
-		s.lit = lo.ToBoolean() && goja.VerifHashEq(v, lv) && goja.VerifHashEq(lv, v)
+		s.lit = lo && goja.VerifHashEq(v, lv) && goja.VerifHashEq(lv, v)
+		// before any scan: a fresh copy against the literal, and a fresh copy against itself across a scan
+		for _, src := range []string{"LIT(f,l)", "SELF(f)"} {
+			fa, fb, why := eval()
+			if why != "" {
+				return s, why
+			}
+			f := fa
+			if second {
+				f = fb
+			}
+			if src == "LIT(f,l)" && !goja.VerifHashEq(f, lv) {
+				s.lit = false
+				rd.tags["fresh-hash-differs"] = true
+			}
+			rt.Set("f", f)
+			ok, why := jsBool(src)
+			if why != "" {
+				return s, why
+			}
+			if !ok {
+				rd.tags["fresh-lit-or-self-failed"] = true
+			}
+			s.lit = s.lit && ok
+		}
 		// a representation outside normal form is recorded for coverage; it is a violation only through o_lit
 		r := goja.VerifRepr(v)
 		nonASCII := false
@@ -919,12 +1120,11 @@ function LIT(a,l){return a===l&&l===a&&new Map([[a,1]]).get(l)===1&&new Map([[l,
 		return s, ""
 	}
 	var sa, sb single
-	var why string
 	if c.ObsFirst {
-		if sa, why = observe("a", va); why != "" {
+		if sa, why = observe("a", va, false); why != "" {
 			return fail(why)
 		}
-		if sb, why = observe("b", vb); why != "" {
+		if sb, why = observe("b", vb, true); why != "" {
 			return fail(why)
 		}
 		rd.tags["pair-after-scan:"+reprClass(goja.VerifRepr(va))+"x"+reprClass(goja.VerifRepr(vb))] = true
@@ -938,11 +1138,12 @@ function LIT(a,l){return a===l&&l===a&&new Map([[a,1]]).get(l)===1&&new Map([[l,
 		p = append(p, x.(bool))
 	}
 	p = append(p, goja.VerifHashEq(va, vb))
+	p = append(p, fresh...)
 	if !c.ObsFirst {
-		if sa, why = observe("a", va); why != "" {
+		if sa, why = observe("a", va, false); why != "" {
 			return fail(why)
 		}
-		if sb, why = observe("b", vb); why != "" {
+		if sb, why = observe("b", vb, true); why != "" {
 			return fail(why)
 		}
 	}
@@ -953,7 +1154,7 @@ function LIT(a,l){return a===l&&l===a&&new Map([[a,1]]).get(l)===1&&new Map([[l,
 	for i, b := range p {
 		ps[i] = vh.CoqBool(b)
 	}
-	term := "(mkCase " + coqExpr(c.A) + " " + coqExpr(c.B) + " " + coqS(sa) + " " + coqS(sb) + " (mkP " + strings.Join(ps, " ") + ") true)%N"
+	term := "(mkCase " + coqExpr(exA) + " " + coqExpr(exB) + " " + coqS(sa) + " " + coqS(sb) + " (mkP " + strings.Join(ps, " ") + ") true)%N"
 	eq := eqUnits(sa.units, sb.units)
 	if eq {
 		rd.tags["impl-equal-units"] = true
@@ -967,14 +1168,13 @@ function LIT(a,l){return a===l&&l===a&&new Map([[a,1]]).get(l)===1&&new Map([[l,
 		tl = append(tl, t)
 	}
 	sort.Strings(tl)
-	obs := fmt.Sprintf("a=%v export=%v lit=%v repr=%s | b=%v export=%v lit=%v repr=%s | [=== ===rev == is < > map maprev obj hash]=%v | srcA=%s | srcB=%s",
+	obs := fmt.Sprintf("a=%v export=%v lit=%v repr=%s | b=%v export=%v lit=%v repr=%s | [=== ===rev == is < > map maprev obj hash | fresh: map maprev set hash]=%v | srcA=%s | srcB=%s",
 		sa.units, sa.export, sa.lit, ra, sb.units, sb.export, sb.lit, rb, p, srcA, srcB)
 	if len(obs) > 1900 {
 		obs = obs[:1900]
 	}
-	// non-trivial: at least one operation node in either tree and (equal values from different representations or
-	// different trees, or an unequal pair whose first difference is past position 0)
-	nontrivial := (c.A.A != nil || c.B.A != nil) && (len(sa.units) > 0 || len(sb.units) > 0)
+	// non-trivial: at least one operation node in either tree and a non-empty value
+	nontrivial := (c.A.A != nil || c.B.A != nil || c.T != nil) && (len(sa.units) > 0 || len(sb.units) > 0)
 	return vh.Record{Case: raw, Coq: term, Obs: obs, Tags: tl, Nontrivial: nontrivial}
 }
 
